@@ -565,3 +565,89 @@ def lw14(prog, rr):
                                "a constraint is ExprLiteralModel(.., %s): index arithmetic that goes negative (l[i] <= i-2 at i=0) then wraps as an "
                                "unsigned value and the unrolled constraint is weaker than the loop body" % (", ".join(got), ", ".join(ref)), text="index literal type")
     rr.require(n >= 1, "index literal construction not found in ForeachRefExpander")
+
+
+# --------------------------------------------------------------------------------------- FT23
+@rule("FT23", ["C04", "C08"], "every structural edit of a list's model is mirrored on the facade's object array", engine="XS", floor=2)
+def ft23(prog, rr):
+    from sa.ir import find_local
+    lt = prog.cls("list_t", "vsc.types")
+    n = 0
+    for name, m in sorted(lt.methods.items()):
+        mlocals = set(find_local(m.node, lambda v: norm(v) == "self.get_model()")) | {"self.get_model()"}
+        for c in walk_local(m.node):
+            if isinstance(c, ast.Call) and call_name(c) in ("clear", "pop", "insert", "remove", "append") and (recv_text(c) or "") in mlocals:
+                op = call_name(c)
+                if op == "append" and not (c.args and "get_model()" in norm(c.args[0])):
+                    continue        # scalar / enum elements have no facade object
+                n += 1
+                mirrored = any(isinstance(x, ast.Call) and call_name(x) == op and "backing_arr" in (recv_text(x) or "") for x in walk_local(m.node))
+                rr.inst("list_t.%s: model.%s mirrored on backing_arr: %s" % (name, op, mirrored))
+                if not mirrored:
+                    rr.finding(m, c, "list_t." + name, "FT23: list_t.%s edits the model's element list (%s) but not the facade's backing_arr: for a list of objects "
+                               "indexing and iteration then return objects that are no longer in the list while constraints apply to the model's elements"
+                               % (name, op), text="unmirrored " + op)
+    rr.require(n >= 2, "structural edits of the list model not recognised (%d)" % n)
+
+
+# --------------------------------------------------------------------------------------- CV23
+@rule("CV23", ["C10"], "trimming a range list: after a target range was removed the scan of the trim ranges does not go on with the decremented index",
+      engine="DF", floor=1)
+def cv23(prog, rr):
+    f = prog.method("RangelistModel", "intersect")
+    h = prog.method("RangelistModel", "_intersect")
+    removes = any(isinstance(n, ast.Call) and call_name(n) == "pop" for n in walk_local(h.node)) and \
+        any(isinstance(n, ast.AugAssign) and isinstance(n.op, ast.Sub) for n in walk_local(h.node))
+    rr.inst("RangelistModel._intersect removes the target and returns the index before it: %s" % removes)
+    inner = [lp for lp in walk_local(f.node) if isinstance(lp, ast.For) and any(isinstance(c, ast.Call) and call_name(c) == "_intersect" for c in walk_local(lp))]
+    rr.require(inner, "RangelistModel.intersect: loop over the trim ranges not found")
+    for lp in inner:
+        calls = [c for c in walk_local(lp) if isinstance(c, ast.Call) and call_name(c) == "_intersect"]
+        for c in calls:
+            idx_names = {n.slice.id for a in c.args for n in ast.walk(a) if isinstance(n, ast.Subscript) and isinstance(n.slice, ast.Name)}
+            asg = [a for a in walk_local(lp) if isinstance(a, ast.Assign) and a.value is c]
+            tgt = {t.id for a in asg for t in a.targets if isinstance(t, ast.Name)}
+            has_break = any(isinstance(b, ast.Break) for b in walk_local(lp))
+            rr.inst("intersect: result bound to %s, list indexed by %s, loop breaks on removal: %s" % (sorted(tgt), sorted(idx_names), has_break))
+            if removes and (tgt & idx_names) and not has_break:
+                rr.finding(f, c, "RangelistModel.intersect", "CV23: when _intersect removes the target range it returns the index before it, and the loop over the "
+                           "remaining trim ranges goes on with self.range_l[%s] - for the first range that is range_l[-1], the last range: a later trim "
+                           "range is applied to the wrong target and the removed range's successor is never compared with the earlier trim ranges "
+                           "([[1,1],[2,2],[3,10]] minus [[0,1],[4,4]] gives [[5,10],[2,2],[3,3]])" % sorted(tgt & idx_names)[0], text="continue with decremented index")
+
+
+# --------------------------------------------------------------------------------------- SH7
+@rule("SH7", ["C16"], "coverpoint and cross constructors leave the shared expression stack empty on every exit, including their own raises", engine="SAI", floor=2)
+def sh7(prog, rr):
+    from sa.sai import Domain, Interp, FALL
+    for cn in ("coverpoint", "cross"):
+        f = prog.cls(cn, "vsc.coverage").methods["__init__"]
+
+        class D(Domain):
+            def initial_user(s):
+                return False            # arguments written as expressions were pushed by the caller
+
+            def on_call(s, st, call, ctx):
+                nm = call_name(call)
+                if nm == "clear_exprs":
+                    return [(FALL, st._replace(u=True), None)]
+                if nm in ("to_expr", "push_expr"):
+                    return [(FALL, st._replace(u=False), None)]
+                if nm == "pop_expr":
+                    return [(FALL, st, None)]
+                return [(FALL, st, None)]
+        outs = Interp(D(), func=f).run(f.node)
+        dirty_norm = [s for s in outs.fall | outs.ret if not s.u]
+        dirty_raise = [(s, lab, site) for (s, lab, site) in outs.rais if not s.u]
+        rr.inst("%s.__init__: %d normal exits, %d raising exits" % (cn, len(outs.fall | outs.ret), len(outs.rais)))
+        if dirty_norm:
+            rr.finding(f, f.node, cn + ".__init__", "SH7: %s.__init__ can return without clearing the shared expression stack: an iff or target written as an "
+                       "expression stays on it and is picked up by the next constraint or covergroup that is built" % cn, text="normal exit dirty")
+        seen = set()
+        for s, lab, site in dirty_raise:
+            ln = getattr(site, "lineno", 0)
+            if ln in seen:
+                continue
+            seen.add(ln)
+            rr.finding(f, site if site is not None else f.node, cn + ".__init__", "SH7: %s.__init__ raises (%s) with the shared expression stack not cleared" % (cn, lab),
+                       text="raise exit dirty %s" % lab)
